@@ -1,2 +1,106 @@
-(* C17 — property theorems only (filled in as the proofs land). *)
-From KV Require Import Edit.Cmd.
+(* C17 — `kustomize edit` changes exactly what the sub-command says.
+   Property theorems only; every theorem is closed by [exact] of a lemma proved in
+   Edit/KustfileProofs.v, Edit/OpsProofs.v, Edit/CmdProofs.v.
+   Vocabulary: Edit/Kustfile.v (text side: comment scanner, marshal), Edit/Kust.v (the record =
+   the in-memory model), Edit/Fix.v (FixKustomization), Edit/Ops.v (one function per sub-command),
+   Edit/Cmd.v (one invocation on a file: Read -> command -> Write). *)
+From KV Require Import Edit.Cmd Edit.KustfileProofs Edit.OpsProofs Edit.CmdProofs.
+Local Open Scope list_scope.
+
+(* ---- content: file content after any command sequence = in-memory model ----
+   U = Kustomization.Unmarshal, R = yaml.Marshal of a one-field struct (both external, go-yaml).
+   Hypotheses: (D) no rendered field contains a blank/comment-looking line; (S3) the go-yaml round
+   trip on texts made of plain comment lines and one-field renderings; the initial file's comment
+   lines are plain (blank or '#' in column 0) and reads as k; k's opaque fields are serialised ones.
+   The Gen obligation `model_fields_ordered` (every modelled field is in fieldMarshallingOrder, or is
+   ImageTags) is used by the proof: a struct field missing from the order list breaks it. *)
+Theorem C17_content :
+  forall (e : env) (U : file -> res kust) (R : kust -> string -> list line),
+    (forall k n l, In l (R k n) -> is_comment_or_blank l = false) ->
+    (forall k L, plain_layout L -> covers k L -> U (mkFile (layout_lines R k L) None) = Ok (canon k)) ->
+    forall ops f k, plain_file f -> other_ok k -> read_typed U f = Ok k ->
+      read_typed U (edit_files e U R f ops) = Ok (model_ops e k ops).
+Proof. exact content. Qed.
+Print Assumptions C17_content.
+
+(* a command that fails (error or crash) leaves the file untouched *)
+Theorem C17_failed_command_writes_nothing :
+  forall e U R f o, fst (edit_file e U R f o) <> COk -> snd (edit_file e U R f o) = f.
+Proof. exact failed_command_writes_nothing. Qed.
+Print Assumptions C17_failed_command_writes_nothing.
+
+(* ---- frame: a command changes only the field(s) it addresses (all 27 sub-commands) ---- *)
+Theorem C17_frame :
+  forall e k o k' n,
+    apply_op e (Ok k) o = Ok (Some k') -> ~ In n (addressed o) -> get n k' = get n k.
+Proof. exact apply_op_frame. Qed.
+Print Assumptions C17_frame.
+
+(* ---- comments ----
+   Full statement (FALSE for the current code):
+     forall c, In c (comment_lines f) -> In c (f_lines (write_file R f k)).
+   Refuted: the trailing comment of "resources:\n- a.yaml\n# trailing comment\n" is in no rewrite. *)
+Theorem C17_comments_refuted :
+  exists f c, In c (comment_lines f) /\
+              forall (R : kust -> string -> list line) k,
+                (forall k n l, In l (R k n) -> is_comment_or_blank l = false) ->
+                ~ In c (f_lines (write_file R f k)).
+Proof. exact comments_refuted. Qed.
+Print Assumptions C17_comments_refuted.
+
+(* What does hold: the comment lines of the original file are, in order, exactly the comment lines
+   of the rewritten file followed by the forgotten ones (those pending at EOF) ... *)
+Theorem C17_comments_partial :
+  forall (R : kust -> string -> list line),
+    (forall k n l, In l (R k n) -> is_comment_or_blank l = false) ->
+    forall f k, comment_lines f = comment_lines (write_file R f k) ++ forgotten_comments f.
+Proof. exact comments_partial. Qed.
+Print Assumptions C17_comments_partial.
+
+(* ... and for a file with at least one recognised field line the forgotten ones are exactly the
+   trailing ones: the comment lines after the last terminated non-comment line (+ a comment tail) *)
+Theorem C17_forgotten_is_trailing :
+  forall f, existsb is_field_line (f_lines f) = true -> forgotten_comments f = trailing_comments f.
+Proof. exact forgotten_is_trailing. Qed.
+Print Assumptions C17_forgotten_is_trailing.
+
+Theorem C17_comments_kept_unless_trailing :
+  forall (R : kust -> string -> list line),
+    (forall k n l, In l (R k n) -> is_comment_or_blank l = false) ->
+    forall f k, existsb is_field_line (f_lines f) = true -> trailing_comments f = [] ->
+      comment_lines (write_file R f k) = comment_lines f.
+Proof. exact comments_kept_unless_trailing. Qed.
+Print Assumptions C17_comments_kept_unless_trailing.
+
+(* ---- obligations over the tables generated from /repo (Gen/KustFields.v) ---- *)
+Theorem Gen_every_field_ordered_or_known_gap :
+  forallb (fun f => str_in (go_name f) gen_field_order || String.eqb (go_name f) "ImageTags")
+          gen_struct_fields = true.
+Proof. exact gen_every_field_ordered_or_known_gap. Qed.
+Print Assumptions Gen_every_field_ordered_or_known_gap.
+
+Theorem Gen_ordered_fields_exist :
+  forallb (fun n => str_in n (map go_name gen_struct_fields)) gen_field_order = true.
+Proof. exact gen_ordered_fields_exist. Qed.
+Print Assumptions Gen_ordered_fields_exist.
+
+Theorem Gen_ordered_fields_len_safe :
+  forallb (fun f => negb (str_in (go_name f) gen_field_order) ||
+                    match field_kind f with GOther => false | _ => true end) gen_struct_fields = true.
+Proof. exact gen_ordered_fields_len_safe. Qed.
+Print Assumptions Gen_ordered_fields_len_safe.
+
+Theorem Gen_model_fields_agree :
+  forallb (fun f => str_in (go_name f) model_fields) gen_struct_fields = true /\
+  forallb (fun n => str_in n (map go_name gen_struct_fields)) model_fields = true.
+Proof. exact gen_model_fields_agree. Qed.
+Print Assumptions Gen_model_fields_agree.
+
+Theorem Gen_header_recognised :
+  forallb (fun f => negb (str_in (go_name f) gen_field_order) ||
+                    match find_matched_field_in gen_field_order (json_name f ++ ":")%string with
+                    | Some n => String.eqb n (go_name f)
+                    | None => false
+                    end) gen_struct_fields = true.
+Proof. exact gen_header_recognised. Qed.
+Print Assumptions Gen_header_recognised.
